@@ -176,7 +176,10 @@ func (x *Exec) eval(e ast.Expr, st *State) *Value {
 	case *ast.TypeAssertExpr:
 		v := x.eval(e.X, st)
 		t := x.typeOf(e.Type)
-		x.oblige(st, "typeassert", types.TypeString(t, nil), x.hasType(v, t), e)
+		// a failing single-value type assertion is a panic
+		if c := x.fr().contract; !((c != nil && c.PanicsOK) || (x.c != nil && x.c.PanicsOK)) {
+			x.oblige(st, "typeassert", types.TypeString(t, nil), x.hasType(v, t), e)
+		}
 		x.assume(st, x.hasType(v, t))
 		return x.assertTo(v, t)
 	case *ast.FuncLit:
@@ -903,8 +906,27 @@ func (x *Exec) equal(a, b *Value) *Term {
 		return And(cs...)
 	}
 	ta, tb := a, b
+	// an interior pointer (&x.f, &a[i]) compared with nil: nil exactly when its base is
+	isNil := func(v *Value) bool {
+		return (v.Tm != nil && v.Tm.IsLit() && v.Tm.S == IntS && v.Tm.Int.Sign() == 0) || (v.P != nil && v.P.simple() && v.P.Base.IsLit() && v.P.Base.Int.Sign() == 0)
+	}
+	if a.P != nil && !a.P.simple() && isNil(b) {
+		return Eq(a.P.Base, IntLit(0))
+	}
+	if b.P != nil && !b.P.simple() && isNil(a) {
+		return Eq(b.P.Base, IntLit(0))
+	}
 	if a.P != nil && b.P != nil && !(a.P.simple() && b.P.simple()) {
-		panic(engErr("comparison of interior pointers"))
+		// interior pointers: equal when they designate the same field path (and element) of the same object
+		pa, pb := a.P, b.P
+		if strings.Join(pa.Path, ".") != strings.Join(pb.Path, ".") || strings.Join(pa.EPath, ".") != strings.Join(pb.EPath, ".") || (pa.Idx == nil) != (pb.Idx == nil) {
+			panic(engErr("comparison of interior pointers with different paths"))
+		}
+		c := Eq(pa.Base, pb.Base)
+		if pa.Idx != nil {
+			c = And(c, Eq(pa.Idx, pb.Idx))
+		}
+		return c
 	}
 	at, bt := ta.term(), tb.term()
 	if at.S != bt.S {
